@@ -70,7 +70,11 @@ class Forward:
                     self._assign(el.value, None, UNKNOWN, env)
                     continue
                 if value_expr is not None and isinstance(value_expr, (ast.Tuple, ast.List)) and len(value_expr.elts) == n:
-                    self._assign(el, value_expr.elts[i], self.evaluate(value_expr.elts[i], env), env)
+                    # every right-hand side is evaluated before any target is bound (a, b = b, a)
+                    pre = getattr(self, "_tuple_pre", None)
+                    if pre is None or pre[0] is not value_expr:
+                        self._tuple_pre = pre = (value_expr, [self.evaluate(x, env) for x in value_expr.elts])
+                    self._assign(el, value_expr.elts[i], pre[1][i], env)
                 elif value_expr is not None and self.unpack is not None:
                     self._assign(el, None, self.unpack(value_expr, env, i, n), env)
                 else:
@@ -276,7 +280,13 @@ class SymValues:
                     new[k] = UNKNOWN
             return new
 
-        self.fw = Forward(self.cfg, self._ev, init={}, aug=aug, effect=effect)
+        # a parameter stands for itself until it is re-bound (so that a re-binding on one branch only joins with it)
+        init = {}
+        a_ = getattr(func, "args", None)
+        if a_ is not None:
+            for p_ in [*a_.posonlyargs, *a_.args, *a_.kwonlyargs, *([a_.vararg] if a_.vararg else []), *([a_.kwarg] if a_.kwarg else [])]:
+                init[p_.arg] = frozenset({p_.arg})
+        self.fw = Forward(self.cfg, self._ev, init=init, aug=aug, effect=effect)
 
     def _alts(self, name: str, env) -> list[str] | None:
         v = env.get(name)
